@@ -159,6 +159,19 @@ PROPS["C17"] = {
               U("TestVerif_C17_Post", GD, R(2000), R(20000, shards=4, timeout=600))],
 }
 
+PROPS["C15"] = {
+    "rule": "requests of each of the nine governance kinds (and messages without payload) with fields across and beyond their wire ranges (chain ids and "
+            "consistency levels up to 2^32-1, 0..70000 sequences, module names of 0..54 bytes, hex strings with wrong length / odd digits / bad characters / "
+            "0x prefix, 0..21 guardians incl. malformed keys, raw and structured upgrade payloads); a produced VAA is signed by a one-guardian set and "
+            "run through the Ralph entry point extracted from the current contract sources, whose resulting state/effects must equal the requested values "
+            "as mathematical integers; batches through InjectGovernanceVAA; non-trivial = a field outside its wire range, a non-canonical module, or a message without payload",
+    "assumptions": ["contract side = interpreter of governance.ral / token_bridge_governance.ral / token_bridge_factory.ral functions extracted from the current tree",
+                    "contract aborts with a semantic error code (empty sequence list, own chain, state-hash mismatch) are not layout failures", "current set index 2^32-1 excluded (no successor index exists)"],
+    "pre": extract_contracts,
+    "units": [U("TestVerif_C15_Conversions", GD, R(6000), R(40000, shards=16, timeout=1500)),
+              U("TestVerif_C15_Inject", GD, R(1500), R(10000, shards=8, timeout=1500))],
+}
+
 def setup():
     """MANIFEST.setup_cmd: create stubs and warm the build cache for every harness binary."""
     work = os.path.join(vdriver.WORKROOT, "setup-%d" % os.getpid())
